@@ -158,16 +158,17 @@ func enumPathsGen(f *ssa.Function, start *ssa.BasicBlock, target ssa.Instruction
 			nd := decs
 			if iff != nil {
 				c, pos := stripNot(iff.Cond)
-				key := canon(c)
-				truth := (si == 0) == pos
-				if old, ok := conds[key]; ok && old != truth {
+				key, flip := condKey(c, pred)
+				truth := (si == 0) == pos // truth of c itself
+				keyTruth := truth != flip  // truth of the normalised condition
+				if old, ok := conds[key]; ok && old != keyTruth {
 					continue // inconsistent with an earlier decision on the same condition
 				}
 				nc = map[string]bool{}
 				for k, v := range conds {
 					nc[k] = v
 				}
-				nc[key] = truth
+				nc[key] = keyTruth
 				nd = append(append([]decision(nil), decs...), decision{iff, truth, c})
 			}
 			np := map[*ssa.BasicBlock]*ssa.BasicBlock{}
@@ -185,20 +186,26 @@ func enumPathsGen(f *ssa.Function, start *ssa.BasicBlock, target ssa.Instruction
 // knownEmpty: on this path a dominating decision says len(v) == 0.
 func (p *pathCtx) knownEmpty(v ssa.Value) bool {
 	cv := canon(v)
-	for k, truth := range p.conds {
-		// forms produced by canon for "len(x) > 0", "len(x) == 0", "len(x) != 0", "len(x) >= 1"
-		pre := "(call builtin len(" + cv + ") "
-		if !strings.HasPrefix(k, pre) {
+	lenv := "call builtin len(" + cv + ")"
+	for _, d := range p.decs {
+		b, ok := d.Cond.(*ssa.BinOp)
+		if !ok {
 			continue
 		}
-		rest := strings.TrimSuffix(strings.TrimPrefix(k, pre), ")")
-		switch rest {
-		case "> 0", "!= 0", ">= 1":
-			if !truth {
+		if canon(b.X) != lenv {
+			continue
+		}
+		c, okc := constInt(b.Y)
+		if !okc {
+			continue
+		}
+		switch {
+		case (b.Op == token.GTR && c == 0) || (b.Op == token.NEQ && c == 0) || (b.Op == token.GEQ && c == 1):
+			if !d.Truth {
 				return true
 			}
-		case "== 0", "<= 0", "< 1":
-			if truth {
+		case (b.Op == token.EQL && c == 0) || (b.Op == token.LEQ && c == 0) || (b.Op == token.LSS && c == 1):
+			if d.Truth {
 				return true
 			}
 		}
@@ -568,4 +575,63 @@ func distinctSeqs(alts []seqAlt) []string {
 		}
 	}
 	return out
+}
+
+// condKey renders a branch condition for the consistency check of path
+// enumeration: phi operands are resolved along the path walked so far, and
+// complementary comparisons share one key (x != y is the negation of x == y,
+// x >= y of x < y, x > y of x <= y). flip reports that the key denotes the
+// negation of cond.
+func condKey(c ssa.Value, pred map[*ssa.BasicBlock]*ssa.BasicBlock) (key string, flip bool) {
+	res := func(v ssa.Value) ssa.Value {
+		for i := 0; i < 8; i++ {
+			ph, ok := v.(*ssa.Phi)
+			if !ok {
+				return v
+			}
+			pr, has := pred[ph.Block()]
+			if !has {
+				return v
+			}
+			found := false
+			for j, pb := range ph.Block().Preds {
+				if pb == pr {
+					v = ph.Edges[j]
+					found = true
+					break
+				}
+			}
+			if !found {
+				return v
+			}
+		}
+		return v
+	}
+	if b, ok := c.(*ssa.BinOp); ok {
+		x, y := canon(res(b.X)), canon(res(b.Y))
+		switch b.Op {
+		case token.EQL:
+			if x > y {
+				x, y = y, x
+			}
+			return "(" + x + " == " + y + ")", false
+		case token.NEQ:
+			if x > y {
+				x, y = y, x
+			}
+			return "(" + x + " == " + y + ")", true
+		case token.LSS:
+			return "(" + x + " < " + y + ")", false
+		case token.GEQ:
+			return "(" + x + " < " + y + ")", true
+		case token.LEQ:
+			return "(" + x + " <= " + y + ")", false
+		case token.GTR:
+			return "(" + x + " <= " + y + ")", true
+		}
+	}
+	if ph, ok := c.(*ssa.Phi); ok {
+		return canon(res(ph)), false
+	}
+	return canon(c), false
 }
